@@ -149,7 +149,11 @@ def compare(ctx, name, emap, shape, desc, out, hidden=False):
         lang = None
     r = rng("c16file", g, desc.get("seed", 0))
     if lang is not None:
-        gf = gen.gen_file(r, lang if lang in langs.LANGS else g, gen.Opts(max_blocks=5, max_depth=2))
+        for _try in range(30):
+            gf = gen.gen_file(r, lang if lang in langs.LANGS else g, gen.Opts(max_blocks=5, max_depth=2))
+            # the file should contain decoys (tags in strings / markup), which is where sibling grammars disagree
+            if gf.meta["decoys"] >= 2 or not langs.LANGS[lang if lang in langs.LANGS else g]["decoys"]:
+                break
         res = _list(ctx, name, gf.data, eargs, via_diff=hidden)
         want = ("blocks", tuple((b.name, b.line, b.col) for b in gf.blocks))
         got = fingerprint(res, name)
